@@ -362,10 +362,14 @@ func (g *docGen) operation() jx.Obj {
 func (g *docGen) pathItem() jx.Obj {
 	rng := g.rng
 	pi := jx.Obj{}
-	if g.cfg.RefPct > 0 && Chance(rng, 15) {
+	if Chance(rng, 15) {
+		// a path item may carry a $ref next to its own operations and parameters: they are still part of the document
 		pi["$ref"] = Pick(rng, []string{"#/x-shared/item", "other.json#/paths/~1a", "items.json"})
 	}
 	np := rng.IntN(3)
+	if Chance(rng, 15) {
+		np = 3 + rng.IntN(6) // many path-level parameters (a decoded slice of 3, 5..8 entries has spare capacity)
+	}
 	if np > 0 {
 		var ps jx.Arr
 		for i := 0; i < np; i++ {
